@@ -41,6 +41,9 @@ class SymSeq:
         sel = Selection(self.length, lambda n: truthy(cond(self.at(n))))
         return SymSeq(sel.count, lambda k: fn(self.at(sel.sel(k))), 'gen')
 
+    def _concrete_len(self):
+        return isinstance(self.length, int)
+
     def _enumerate(self, start=0):
         return SymSeq(self.length, lambda k: (k + start, self.at(k)), 'gen')
 
